@@ -65,6 +65,8 @@ def _run_crash(rep, scens, label, workers=None, collect=None, extra_rules=None):
     files, summ = vlib.run_harness("crash", sf, os.path.join(d, "trace"), workers=workers or min(vlib.WORKERS, max(1, len(scens))), timeout=6000,
                                    env={"VERIF_CRASH_KEEPLOGS": logdir})
     cont = sorted(glob.glob(os.path.join(d, "trace.cont.*.ndjson")))
+    if summ.get("aborted"):
+        cont = []      # the batch was abandoned after several scenarios killed the process on their own: what the last attempt left is partial
     bad, n1, _ = vlib.validate_traces("CrashTrace", "CrashTrace.cfg", files)
     cases = load_cases(files)
     if collect is not None:
